@@ -9,7 +9,7 @@ from __future__ import annotations
 
 from .. import wire, gen, common
 from ..core import call, sm, X, Report, write_evidence, Batch
-from ..engine import NumCase, ExprCase, judge_numeric, judge_expr, answers_agree, out_of_range, _num_answer
+from ..engine import NumCase, ExprCase, judge_numeric, judge_expr, answers_agree, out_of_range, _num_answer, widen
 
 PID = "C05"
 
@@ -162,8 +162,13 @@ def check_cases(cases: list[dict], rep: Report, known: dict) -> None:
         vb = Batch()
         ii = [(vb.ask(f"F{j} " + t), vb.ask(f"F{j} " + o)) for j in (1, 2, 3)]
         vb.run()
-        if "exact" not in info and any(not answers_agree(_num_answer(vb[x_]), a_in) or not answers_agree(_num_answer(vb[y_]), a_out) for x_, y_ in ii):
+        vin = [_num_answer(vb[x_]) for x_, _ in ii]
+        vout = [_num_answer(vb[y_]) for _, y_ in ii]
+        if "exact" not in info and (any(not answers_agree(v, a_in) for v in vin) or any(not answers_agree(v, a_out) for v in vout)):
             rep.skip("rounding-ambiguous")
+            continue
+        if "exact" not in info and a_out[0] == "ok" and answers_agree(widen(a_in, vin), widen(a_out, vout)):
+            rep.count("points", "agree-after-widening")
             continue
         if attributable_to_k1(info):
             rep.known("K1", "even root of even power rewritten unsoundly inside as_expression()",
